@@ -43,11 +43,13 @@ type workload struct {
 	BigValues  bool // some calls carry a string attribute of several KB (the pooled buffers must grow)
 	Blanks     bool // some calls are blank Print/Println (delivered as a bare newline)
 	OddLevels  bool // some calls use unregistered numeric levels (one per goroutine)
+	BareCalls  bool // some calls are plain verb methods with a message and no argument at all (the logger's attributes are the record's)
+	Override   bool // some calls pass a group of their own under the key of the logger-level shared group (the call's group wins)
 }
 
 func (w workload) String() string {
-	return fmt.Sprintf("loggers=%+v G=%d N=%d GOMAXPROCS=%d callSharedGroup=%v multiline=%v errors=%v blanks=%v unregisteredLevels=%v bigValues=%v yieldEvery=%d seed=%d",
-		w.Loggers, w.G, w.N, w.Procs, w.CallGroup, w.MultiLine, w.ErrorVals, w.Blanks, w.OddLevels, w.BigValues, w.YieldEvery, w.Seed)
+	return fmt.Sprintf("loggers=%+v G=%d N=%d GOMAXPROCS=%d callSharedGroup=%v multiline=%v errors=%v blanks=%v unregisteredLevels=%v bigValues=%v bareCalls=%v overrideGroup=%v yieldEvery=%d seed=%d",
+		w.Loggers, w.G, w.N, w.Procs, w.CallGroup, w.MultiLine, w.ErrorVals, w.Blanks, w.OddLevels, w.BigValues, w.BareCalls, w.Override, w.YieldEvery, w.Seed)
 }
 
 // the members of the shared group: unsorted and with a duplicate key so that the
@@ -197,6 +199,8 @@ func run(t *rapid.T, test string, wl workload) {
 		sev    slog.Level
 		admit  bool
 		blank  bool
+		bare   bool
+		over   bool
 	}
 	plan := func(g, i int) call {
 		h := mix(wl.Seed ^ uint64(g)<<32 ^ uint64(i))
@@ -220,7 +224,23 @@ func run(t *rapid.T, test string, wl workload) {
 		if wl.Blanks && (h>>24)%6 == 0 {
 			c.sev, c.admit, c.blank = slog.AlwaysLevel, true, true
 		}
+		if wl.BareCalls && !c.blank && (h>>32)%3 == 0 {
+			c.bare = true
+			if c.sev < 0 { // the bare calls use the verb methods
+				c.sev = slog.InfoLevel
+			}
+		}
+		if wl.Override && !c.bare && !c.blank && (h>>40)%3 == 0 {
+			c.over = true
+		}
 		return c
+	}
+	// the group a call passes under the key of the shared group
+	overrideExp := func(id string) vlib.ExpAttr {
+		return vlib.ExpAttr{Key: "shared", IsGroup: true, Group: []vlib.ExpAttr{
+			{Key: "z", Val: vlib.Value{Kind: "string", V: "z-" + id}},
+			{Key: "a", Val: vlib.Value{Kind: "string", V: "a-" + id}},
+		}}
 	}
 	blanksExpected := map[int]int{}
 	levelName := func(l slog.Level) string {
@@ -256,6 +276,10 @@ func run(t *rapid.T, test string, wl workload) {
 				attrs = append(attrs, vlib.ExpAttr{Key: "reqid", Val: vlib.Value{Kind: "string", V: "req-" + id}}, vlib.ExpAttr{Key: "requser", Val: vlib.Value{Kind: "int", V: g*100000 + i}})
 			}
 			attrs = append(attrs, own[c.logger]...)
+			if c.bare {
+				expected[id] = expectation{logger: c.logger, level: levelName(c.sev), msg: msg, attrs: own[c.logger]}
+				continue
+			}
 			attrs = append(attrs, vlib.ExpAttr{Key: "id", Val: vlib.Value{Kind: "string", V: id}}, vlib.ExpAttr{Key: "i", Val: vlib.Value{Kind: "int", V: i}})
 			if wl.CallGroup && i%2 == 0 {
 				attrs = append(attrs, sharedExp)
@@ -265,6 +289,9 @@ func run(t *rapid.T, test string, wl workload) {
 			}
 			if wl.BigValues && i%5 == 2 {
 				attrs = append(attrs, vlib.ExpAttr{Key: "big", Val: vlib.Value{Kind: "string", V: bigValue(id)}})
+			}
+			if c.over {
+				attrs = append(attrs, overrideExp(id))
 			}
 			expected[id] = expectation{logger: c.logger, level: levelName(c.sev), msg: msg, attrs: attrs}
 		}
@@ -311,6 +338,19 @@ func run(t *rapid.T, test string, wl workload) {
 					}
 					continue
 				}
+				if c.bare {
+					switch c.sev {
+					case slog.ErrorLevel:
+						loggers[c.logger].Error(msg)
+					case slog.WarnLevel:
+						loggers[c.logger].Warn(msg)
+					case slog.DebugLevel:
+						loggers[c.logger].Debug(msg)
+					default:
+						loggers[c.logger].Info(msg)
+					}
+					continue
+				}
 				args := []any{"id", id, "i", i}
 				if wl.BigValues && i%5 == 2 {
 					args = append(args, "big", bigValue(id))
@@ -320,6 +360,9 @@ func run(t *rapid.T, test string, wl workload) {
 				}
 				if wl.ErrorVals && i%4 == 1 {
 					args = append(args, "err", error(stackErr))
+				}
+				if c.over {
+					args = append(args, vlib.AttrsOf([]vlib.ExpAttr{overrideExp(id)})[0])
 				}
 				ctx := context.WithValue(context.WithValue(context.Background(), "reqid", "req-"+id), reqKey, g*100000+i) //nolint:staticcheck // string key on purpose
 				loggers[c.logger].LogAttrs(ctx, c.sev, msg, args...)
@@ -459,6 +502,12 @@ func run(t *rapid.T, test string, wl workload) {
 	if wl.CallGroup {
 		sharing["call-shared-group"] = true
 	}
+	if wl.BareCalls {
+		sharing["calls-without-arguments"] = true
+	}
+	if wl.Override {
+		sharing["call-group-overrides-logger-group"] = true
+	}
 	key := ""
 	if wl.G >= 2 && (len(sharing) > 0) && wl.G > len(wl.Loggers)/2 {
 		bucket := "G<=8"
@@ -518,6 +567,8 @@ func genWorkload(t *rapid.T, maxCalls int) workload {
 	wl.Blanks = rapid.IntRange(0, 2).Draw(t, "blankPrints") == 0
 	wl.BigValues = rapid.IntRange(0, 2).Draw(t, "bigValues") == 0
 	wl.OddLevels = rapid.IntRange(0, 2).Draw(t, "unregisteredLevels") == 0
+	wl.BareCalls = rapid.IntRange(0, 2).Draw(t, "bareCalls") == 0
+	wl.Override = rapid.IntRange(0, 2).Draw(t, "overrideGroup") == 0
 	return wl
 }
 
